@@ -415,8 +415,47 @@ pub fn generate_c10(corpus: &[Project], seed: u64, index: u64, k: usize) -> Run 
 // Synthetic projects: seeded type graphs (named types sharing recursive members, discriminated
 // unions, generics, utility types, unprintable leaves) spread over a few files. Workload only.
 // ---------------------------------------------------------------------------------------------
+/// A dense mesh of barrels: every file re-exports every other one; a few names are defined in
+/// single files, one requested name is defined nowhere, one is re-exported by name.
+fn barrel_mesh_project(seed: u64, rng: &mut Rng) -> Project {
+    let n = rng.range(6, 14);
+    let mut files: BTreeMap<String, String> = BTreeMap::new();
+    for i in 0..n {
+        let mut src = String::new();
+        for j in 0..n {
+            if j != i && (n <= 10 || rng.chance(9, 10)) {
+                src.push_str(&format!("export * from \"./b{}\";\n", j));
+            }
+        }
+        src.push_str(&format!("export type Own{} = {{ at: {}; s: string }};\n", i, i));
+        if i == n - 1 {
+            src.push_str("export { Leaf } from \"./leaf\";\n");
+        }
+        files.insert(format!("/p/b{}.ts", i), src);
+    }
+    files.insert("/p/leaf.ts".into(), "export type Leaf = { leaf: true };\n".into());
+    let missing = if rng.chance(1, 2) { "; Nope: Nope" } else { "" };
+    let imports = if missing.is_empty() { "Own0, Leaf" } else { "Own0, Leaf, Nope" };
+    files.insert(
+        "/p/entry.ts".into(),
+        format!("import parse from \"./gen/parser\";\nimport {{ {}, Own{} }} from \"./b0\";\nparse.buildParsers<{{ Own0: Own0; Last: Own{}; Leaf: Leaf{} }}>();\n", imports, n - 1, n - 1, missing),
+    );
+    Project {
+        id: format!("mesh_{:08x}", (seed & 0xffff_ffff) as u32),
+        origin: "verif/sim/src/gen.rs barrel_mesh_project".into(),
+        origin_kind: "synthetic".into(),
+        entry: "/p/entry.ts".into(),
+        settings: Settings { string_formats: vec![], number_formats: vec![] },
+        module: "esm".into(),
+        files,
+    }
+}
+
 pub fn synthetic_project(seed: u64) -> Project {
     let mut rng = Rng::new(seed ^ 0x5EED_0F_7E57);
+    if rng.chance(1, 40) {
+        return barrel_mesh_project(seed, &mut rng);
+    }
     let n_types = rng.range(3, 8);
     let n_files = rng.range(1, 3);
     let names: Vec<String> = (0..n_types).map(|i| format!("T{}", i)).collect();
@@ -561,6 +600,12 @@ pub fn synthetic_project(seed: u64) -> Project {
         }
         extra_keys.push("Mapped: Mapped".into());
     }
+    let default_expr = n_files >= 2 && rng.chance(1, 5);
+    if default_expr {
+        extra_decls.push("import Def from \"./m1\";".into());
+        extra_decls.push("export type DefT = typeof Def;".into());
+        extra_keys.push("DefT: DefT".into());
+    }
     let in_m1: Vec<&String> = (0..n_types).filter(|i| file_of[*i] == 1).map(|i| &names[i]).collect();
     if rng.chance(1, 4) {
         // tuples and projections with literal indices (inside, at and beyond the fixed length)
@@ -659,6 +704,11 @@ pub fn synthetic_project(seed: u64) -> Project {
         for d in &decls[k] {
             src.push_str(d);
             src.push('\n');
+        }
+        if k == 1 && default_expr {
+            // a default export that is an expression mentioning values of its own file
+            src.push_str("const inner = { deep: 1, list: [\"x\"] } as const;\nconst label = \"m1\" as const;\n");
+            src.push_str(["export default { a: inner, label };\n", "export default { a: inner, made: compute(1) };\n", "export default [inner, label] as const;\n"][rng.below(3)]);
         }
         if k == 0 {
             for (qn, qb) in &queries {
